@@ -58,6 +58,71 @@ pub fn guard<T>(f: impl FnOnce() -> T) -> Result<T, String> {
 }
 
 // ---------------------------------------------------------------------------------------------
+// crash / hang isolation support (child side)
+//
+// The check runs as a child of a small supervisor (see main.rs). Before every case a worker
+// thread writes the case into its own slot file, and stamps the start time; a watchdog thread
+// aborts the process when a single case runs absurdly long. If the child dies (abort on
+// allocation failure, stack overflow, watchdog), the supervisor re-runs the slot cases one by
+// one in fresh processes to find the culprit and reports it as a violation with a replay file.
+
+pub const MAX_THREADS: usize = 64;
+static CASE_START_MS: [std::sync::atomic::AtomicU64; MAX_THREADS] = [const { std::sync::atomic::AtomicU64::new(0) }; MAX_THREADS];
+static PROCESS_START: std::sync::OnceLock<Instant> = std::sync::OnceLock::new();
+
+fn now_ms() -> u64 {
+    PROCESS_START.get_or_init(Instant::now).elapsed().as_millis() as u64 + 1
+}
+
+pub fn slot_dir() -> Option<PathBuf> {
+    std::env::var_os("CVERIF_SLOTS").map(PathBuf::from)
+}
+
+pub fn start_hang_watchdog() {
+    let limit_ms: u64 = std::env::var("CVERIF_HANG_MS").ok().and_then(|s| s.parse().ok()).unwrap_or(120_000);
+    let _ = now_ms();
+    std::thread::spawn(move || loop {
+        std::thread::sleep(std::time::Duration::from_millis(500));
+        let now = now_ms();
+        for (t, slot) in CASE_START_MS.iter().enumerate() {
+            let s = slot.load(std::sync::atomic::Ordering::Relaxed);
+            if s != 0 && now.saturating_sub(s) > limit_ms {
+                eprintln!("watchdog: the case running on worker {t} has not finished after {} ms; aborting so that the supervisor can isolate it", now - s);
+                std::process::abort();
+            }
+        }
+    });
+}
+
+struct Slot {
+    file: Option<std::fs::File>,
+    buf: Vec<u8>,
+    thread: usize,
+}
+
+impl Slot {
+    fn open(property: &str, sub: &str, thread: usize) -> Slot {
+        let file = slot_dir().and_then(|d| std::fs::OpenOptions::new().create(true).write(true).truncate(true).open(d.join(format!("slot-{property}-{sub}-{thread}.json"))).ok());
+        Slot { file, buf: Vec::with_capacity(4096), thread }
+    }
+    fn begin<T: Serialize>(&mut self, property: &str, sub: &str, case: &T) {
+        if let Some(f) = &self.file {
+            use std::os::unix::fs::FileExt;
+            self.buf.clear();
+            self.buf.extend_from_slice(format!("{{\"property\":{:?},\"sub\":{:?},\"message\":\"case in flight when the process died\",\"case\":", property, sub).as_bytes());
+            let _ = serde_json::to_writer(&mut self.buf, case);
+            self.buf.push(b'}');
+            let _ = f.write_all_at(&self.buf, 0);
+            let _ = f.set_len(self.buf.len() as u64);
+        }
+        CASE_START_MS[self.thread % MAX_THREADS].store(now_ms(), std::sync::atomic::Ordering::Relaxed);
+    }
+    fn end(&mut self) {
+        CASE_START_MS[self.thread % MAX_THREADS].store(0, std::sync::atomic::Ordering::Relaxed);
+    }
+}
+
+// ---------------------------------------------------------------------------------------------
 // per-case report
 
 #[derive(Debug, Default, Clone)]
@@ -191,6 +256,8 @@ pub struct Ctx {
     pub assumptions: Vec<String>,
     /// scale factor for case counts (VERIF_SCALE, default 1.0) — for experiments only
     pub scale: f64,
+    /// write every case to a slot file before running it (crash isolation)
+    pub isolate: bool,
 }
 
 fn mix(a: u64, b: u64) -> u64 {
@@ -262,6 +329,7 @@ impl Ctx {
             rule: String::new(),
             assumptions: Vec::new(),
             scale,
+            isolate: true,
         }
     }
 
@@ -276,6 +344,19 @@ impl Ctx {
     }
 
     /// Run `cases` generated cases of `strategy()` through `oracle`.
+    /// like `run`, without the per-case slot file (for checks of pure in-memory functions whose
+    /// cases cost far less than a file write and cannot exhaust memory or hang)
+    pub fn run_fast<T, S, F>(&mut self, sub: &str, cases: u32, strategy: impl Fn() -> S + Sync, oracle: F)
+    where
+        T: Debug + Clone + Serialize + DeserializeOwned + Send,
+        S: Strategy<Value = T>,
+        F: Fn(&T) -> Report + Sync,
+    {
+        self.isolate = false;
+        self.run(sub, cases, strategy, oracle);
+        self.isolate = true;
+    }
+
     pub fn run<T, S, F>(&mut self, sub: &str, cases: u32, strategy: impl Fn() -> S + Sync, oracle: F)
     where
         T: Debug + Clone + Serialize + DeserializeOwned + Send,
@@ -287,6 +368,8 @@ impl Ctx {
         let per = cases as usize / threads;
         let extra = cases as usize % threads;
         let outs: Mutex<Vec<(usize, ThreadOut<T>)>> = Mutex::new(Vec::new());
+        let isolate = self.isolate;
+        let property: &str = &self.property.clone();
         std::thread::scope(|sc| {
             for t in 0..threads {
                 let n = per + usize::from(t < extra);
@@ -296,7 +379,8 @@ impl Ctx {
                 let builder = std::thread::Builder::new().stack_size(64 << 20);
                 builder
                     .spawn_scoped(sc, move || {
-                        let out = run_thread(n as u32, mix(base, t as u64), strategy(), oracle);
+                        let slot = if isolate { Slot::open(property, sub, t) } else { Slot { file: None, buf: Vec::new(), thread: t } };
+                        let out = run_thread(n as u32, mix(base, t as u64), strategy(), oracle, slot, property, sub);
                         outs.lock().unwrap().push((t, out));
                     })
                     .expect("spawn");
@@ -544,7 +628,7 @@ pub fn load_replay(path: &str) -> Option<(String, serde_json::Value)> {
     Some((sub, case))
 }
 
-fn run_thread<T, S, F>(cases: u32, seed: u64, strategy: S, oracle: &F) -> ThreadOut<T>
+fn run_thread<T, S, F>(cases: u32, seed: u64, strategy: S, oracle: &F, slot: Slot, property: &str, sub: &str) -> ThreadOut<T>
 where
     T: Debug + Clone + Serialize,
     S: Strategy<Value = T>,
@@ -573,8 +657,12 @@ where
     let mut runner = TestRunner::new_with_rng(config, rng_from(seed));
     let failed = std::cell::Cell::new(false);
     let acc = RefCell::new(&mut out);
+    let slot = RefCell::new(slot);
     let res = runner.run(&strategy, |case| {
-        let rep = match guard(|| oracle(&case)) {
+        slot.borrow_mut().begin(property, sub, &case);
+        let guarded = guard(|| oracle(&case));
+        slot.borrow_mut().end();
+        let rep = match guarded {
             Ok(r) => r,
             Err(p) => {
                 let mut r = Report::new();
@@ -604,6 +692,11 @@ where
         match rep.verdict {
             None => Ok(()),
             Some(m) => {
+                if m.contains("HARNESS-SELF-CHECK") {
+                    // a defect of the harness itself: inconclusive, never a violation
+                    eprintln!("{m}\ncase: {}", serde_json::to_string(&case).unwrap_or_default().chars().take(2000).collect::<String>());
+                    std::process::exit(2);
+                }
                 failed.set(true);
                 Err(TestCaseError::fail(m))
             }
